@@ -686,25 +686,46 @@ class World:
 
     # ---- blocking calls (no threads in the model: the caller spins, everybody else runs) ------
     def block_on(self, it, fut):
+        """a blocking wait: the caller spins on `fut`; between two polls ONE other transition
+        happens, chosen by the (explored) scheduler: another task is polled, the clock advances.
+        If nothing else can happen the clock jumps to the next timer deadline; if there is none
+        the call can never return (BlockedForever)."""
         cx = Opaque("Context", "blocking")
         saved = self.cur_task
-        for _n in range(100):
+        outer_fp = self.cur_fp
+        for _n in range(60):
             r = self.poll_future(it, fut, cx)
             self.cur_task = saved
             if r.variant == "Ready":
-                it.drop_value(fut) if not isinstance(fut, Agg) or fut.kind != "coroutine" or not fut.extra.get("done") else None
+                if not (isinstance(fut, Agg) and fut.kind == "coroutine"):
+                    it.drop_value(fut)
+                outer_fp[("*",)] = "w"
+                self.cur_fp = outer_fp
                 return r.fields[0]
-            before = self.version
-            self.sim.run_fair_excluding(saved)
-            self.cur_task = saved
-            if self.version == before:
-                # nothing but time can change: jump to the earliest pending deadline
-                nxt = [t for t in self.deadlines if isinstance(t, int) and isinstance(self.now, int) and t > self.now]
-                if not nxt:
-                    raise Unsupported("a blocking call can never complete in the model (no runnable task, no pending timer)")
-                self.now = min(nxt)
-                self.touch()
-                self.ex.event(ev="clock_jump", now=self.now)
+            opts = [("poll", t) for t in self.tasks if t is not saved and self.runnable(t)]
+            for g, run, label in self.sim.extra_actions:
+                if g():
+                    opts.append(("act", (run, label)))
+            if opts:
+                k = it.ex.choose(len(opts), "blocked:" + "/".join(x.name if kd == "poll" else "env:" + x[1] for kd, x in opts))
+                kind, x = opts[k]
+                if kind == "poll":
+                    it.ex.event(ev="sched", task=x.name, clock=self.sim.tick(), now_raw=self.now, nested=True)
+                    self.poll_task(it, x)
+                else:
+                    it.ex.event(ev="env", what=x[1], clock=self.sim.tick(), nested=True)
+                    x[0]()
+                self.cur_task = saved
+                continue
+            nxt = [t for t in self.deadlines if isinstance(t, int) and isinstance(self.now, int) and t > self.now]
+            if not nxt:
+                outer_fp[("*",)] = "w"
+                self.cur_fp = outer_fp
+                raise BlockedForever()
+            self.now = min(nxt)
+            self.obj_ver[("clock",)] = self.obj_ver.get(("clock",), 0) + 1
+            self.touch()
+            it.ex.event(ev="clock_jump", now=self.now)
         raise Unsupported("block_on bound exceeded")
 
     # ---- actions inside hooks / client tasks ---------------------------------------------
